@@ -71,7 +71,17 @@ def check_case(case, ctr):
             bad('attributes', exp, got, concept=i)
             continue
         if other is not None and len(other) == len(al):
-            ctr['calls'] += 2
+            ctr['calls'] += 4
+            # on this second lattice the FIRST enumeration is abandoned after one item, the
+            # next two run in lock-step, and only then a complete one follows
+            oc = other[i]
+            it = oc.attributes()
+            head = next(it, None)
+            del it
+            it1, it2 = oc.attributes(), oc.attributes()
+            zipped = [x for pair in zip(it1, it2) for x in pair]
+            if head != exp[0] or zipped != [x for x in exp for _ in (0, 1)]:
+                bad('attributes-after-partial-enumeration', exp, [head, zipped], concept=i)
             if list(other[i].attributes()) != exp or list(other[i].attributes()) != exp:
                 bad('attributes-after-minimal', exp, list(other[i].attributes()), concept=i)
             if first_min[i] != (case.plab(intent) if i == ref.bottom else exp[0]):
